@@ -129,5 +129,5 @@ def bounds(tier):
 LEVEL_TEXT = ("bounded symbolic model checking of a 2-safety property: the real test function is executed twice on the same "
               "symbolic data with two symbolic parameter sets related by the property's ordering, and z3 proves per point that "
               "severity does not decrease and the UNKNOWN/MISSING set is unchanged")
-LEVEL_NOTE = "bounds: n<=3/4, grid G; environment model validated by per-path witnesses (both runs replayed)"
+LEVEL_NOTE = "bounds: n<=3/5, grid G; environment model validated by per-path witnesses (both runs replayed)"
 TECHNIQUE = "relational symbolic execution (self-composition) of the real Python source over a modelled numpy/pandas + z3"
